@@ -929,7 +929,6 @@ def run(outdir, report):
         cls, inst = uni.classes[ns], uni.insts[ns]
         d.append('/-- Configuration of a live `%s.MPU()` instance. -/' % modname)
         d.append('def %s.cfg : Cfg where' % dev)
-        d.append('  name := %s' % lean_str(inst.name))
         for k in CFG_NAT:
             v = getattr(inst, k)
             if not isinstance(v, int) or isinstance(v, bool) or v < 0:
